@@ -61,8 +61,15 @@ class Style:
                                           ind + "# nel\x85 fs\x1c"]))
 
 
+LITERALS = ["1", "1", "'s'", "2.5", "True", '""', "0", "'a' * 2"]
+
+
 def render_expr(rs, style, empty="1"):
     if not rs:
+        # a read-less assignment: literals of different TYPES, so that two paths (or two successive branches)
+        # can leave one variable with different types - TIFA's read/set bookkeeping must not depend on that
+        if empty == "1" and style.rng is not None and style.rng.random() < 0.45:
+            return style.rng.choice(LITERALS)
         return empty
     names = [style.names[r] for r in rs]
     if len(names) == 1:
